@@ -76,12 +76,32 @@ var (
 	neoRecurCode = (&asm{}).op(vm.DUP).appcall(make([]byte, 20)).b                                            // DUP; APPCALL <address from stack>
 	neoStoreCode = (&asm{}).syscall("System.Storage.GetContext").syscall("System.Storage.Put").op(vm.PUSH1).b // [value key] -> Put(ctx,key,value)
 	neoEchoCode  = (&asm{}).op(vm.NOP).b
+	// callees of the cross-contract loops: a service call; a contract that calls another; a bounded loop of service calls
+	neoTimeCode  = (&asm{}).syscall("System.Runtime.GetTime").op(vm.DROP).b
+	neoChainCode = (&asm{}).appcall(addrBytes(neoTimeCode)).b
+	neoLoopCode  = asmLoop(&asm{}, 16, func(a *asm) { a.syscall("System.Runtime.GetTime").op(vm.DROP) }).b
 	evmLoopRT    = []byte{0x5b, 0x60, 0x00, 0x56}                                     // JUMPDEST PUSH1 0 JUMP
 	evmEchoRT    = []byte{0x36, 0x60, 0x00, 0x60, 0x00, 0x37, 0x36, 0x60, 0x00, 0xf3} // return calldata
 	evmLogRT     = []byte{0x36, 0x60, 0x00, 0x60, 0x00, 0x37, 0x60, 0x01, 0x60, 0x02, 0x36, 0x60, 0x00, 0xa2, 0x00}
 )
 
 func neoAddr(code []byte) common.Address { return common.AddressFromVmCode(code) }
+
+func addrBytes(code []byte) []byte { a := neoAddr(code); return a[:] }
+
+// asmLoop emits: counter on the alt stack, body executed n times (bounded backward jump).
+func asmLoop(a *asm, n int64, body func(a *asm)) *asm {
+	a.pushI(n).op(vm.TOALTSTACK)
+	start := len(a.b)
+	body(a)
+	a.op(vm.FROMALTSTACK, vm.DEC, vm.DUP, vm.TOALTSTACK)
+	a.jmp(vm.JMPIF, int16(start-len(a.b)))
+	return a.op(vm.FROMALTSTACK, vm.DROP)
+}
+
+func prefixNeoContracts() [][]byte {
+	return [][]byte{neoRecurCode, neoStoreCode, neoEchoCode, neoTimeCode, neoChainCode, neoLoopCode}
+}
 
 func evmPrefixAddr(i int) ethcomm.Address {
 	return ethcrypto.CreateAddress(ethcomm.Address(zoo()[zEth0].Address), uint64(i))
@@ -125,7 +145,7 @@ func getWorld() (*world, error) {
 	}
 	// block 2: NeoVM and EVM contracts
 	txs = nil
-	for i, code := range [][]byte{neoRecurCode, neoStoreCode, neoEchoCode} {
+	for i, code := range prefixNeoContracts() {
 		mtx, err := cutils.NewDeployTransaction(code, fmt.Sprintf("c%d", i), "1", "a", "e", "d", payload.NEOVM_TYPE)
 		if err != nil {
 			return nil, err
@@ -161,7 +181,7 @@ func getWorld() (*world, error) {
 			return nil, fmt.Errorf("prefix: evm contract %d not deployed (%v)", i, err)
 		}
 	}
-	for _, code := range [][]byte{neoRecurCode, neoStoreCode, neoEchoCode} {
+	for _, code := range prefixNeoContracts() {
 		if d, err := ch.LS.GetContractState(neoAddr(code)); err != nil || d == nil {
 			return nil, fmt.Errorf("prefix: neovm contract not deployed (%v)", err)
 		}
@@ -231,7 +251,7 @@ func installCounters() {
 			m[n] = func(s *neosvc.NeoVmService, e *vm.Executor) error {
 				hit("sys:" + n)
 				if probe.on {
-					probe.sample(e)
+					probe.sample(s, e)
 				}
 				return hh(s, e)
 			}
@@ -280,6 +300,10 @@ func guard(res *pathRes, f func()) {
 		res.Ms = time.Since(t0).Milliseconds()
 		res.Reached = takeReached()
 		if r := recover(); r != nil {
+			if a, ok := r.(probeAbort); ok { // not a panic of the node: the probe stopped a request that passed its bound
+				res.Abort = a.msg
+				return
+			}
 			res.Panic = fmt.Sprint(r)
 			res.Stack = trimStack(string(debug.Stack()))
 		}
@@ -357,6 +381,8 @@ func serve(in []byte) []byte {
 			w.doNeo(&c, &rep)
 		case "amp":
 			w.doAmp(&c, &rep)
+		case "xloop":
+			w.doXloop(&c, &rep)
 		case "native":
 			w.doNative(&c, &rep)
 		case "evm":
@@ -508,7 +534,16 @@ type probeState struct {
 	on          bool
 	limit       int
 	first, peak int
+	// call counting (cross-contract loops)
+	count    bool
+	calls    int
+	maxCalls int
+	what     string
+	steps    int
 }
+
+// probeAbort is thrown by the probe through the node's frames (which recover nothing) into guard().
+type probeAbort struct{ msg string }
 
 var probe probeState
 
@@ -516,7 +551,31 @@ func probeStart(limit int) { probe = probeState{on: true, limit: limit, first: -
 
 func probeStop() (first, peak int) { probe.on = false; return probe.first, probe.peak }
 
-func (p *probeState) sample(e *vm.Executor) {
+// probeCalls counts the service-handler entries of one request and stops it beyond maxCalls.
+func probeCalls(maxCalls int, what string) {
+	probe = probeState{on: true, count: true, maxCalls: maxCalls, what: what}
+}
+
+func (p *probeState) sample(s *neosvc.NeoVmService, e *vm.Executor) {
+	if p.count {
+		p.calls++
+		if s.PreExec && os.Getenv("VERIF_C12_NO_STEPCOUNTER") == "" {
+			// every opcode of every engine of a pre-execution request passes CheckExecStep first, so the
+			// request's step counter can never be behind the number of service-call opcodes entered so far
+			if sc, ok := s.ContextRef.(*smartcontract.SmartContract); ok {
+				p.steps = sc.ExecStep
+				if sc.ExecStep < p.calls {
+					p.on = false
+					panic(probeAbort{fmt.Sprintf("%s: the request has entered %d service calls (one opcode each) but its step counter SmartContract.ExecStep reads %d: executed opcodes are not counted against VM_STEP_LIMIT", p.what, p.calls, sc.ExecStep)})
+				}
+			}
+		}
+		if p.calls > p.maxCalls {
+			p.on = false
+			panic(probeAbort{fmt.Sprintf("%s: the request has entered %d service calls (one opcode, >= 2 gas each) and is still running; it must have ended with a result or an error before %d", p.what, p.calls, p.maxCalls)})
+		}
+		return
+	}
 	n := liveItems(e, p.limit)
 	if p.first < 0 {
 		p.first = n
@@ -608,6 +667,76 @@ func (w *world) doAmp(c *wcase, rep *wreply) {
 	probeStart(limit)
 	w.preExec(tx, &rep.Pre)
 	m.PreFirst, m.PrePeak = probeStop()
+}
+
+// ---------------------------------------------------------------------------------------------
+// cross-contract loops: the gas bound of a transaction and the step bound of a pre-execution request,
+// counted over all nested engines
+
+// sandboxPre pre-executes tx on a SmartContract built the way PreExecuteContractWithParam builds it,
+// except for the gas budget, which is finite.
+func (w *world) sandboxPre(tx *types.Transaction, budget uint64, res *pathRes, lr *loopRes) {
+	guard(res, func() {
+		ls := w.ch.LS
+		height := ls.GetCurrentBlockHeight()
+		blockTime := uint32(constants.GENESIS_BLOCK_TIMESTAMP + 1)
+		if h, err := ls.GetHeaderByHeight(height); err == nil {
+			blockTime = h.Timestamp + 1
+		}
+		gasTable := make(map[string]uint64)
+		neosvc.GAS_TABLE.Range(func(k, v interface{}) bool { gasTable[k.(string)] = v.(uint64); return true })
+		invoke := tx.Payload.(*payload.InvokeCode)
+		sc := smartcontract.SmartContract{
+			Config:       &smartcontract.Config{Time: blockTime, Height: height + 1, Tx: tx, BlockHash: ls.GetBlockHash(height)},
+			Store:        ls,
+			CacheDB:      ls.GetCacheDB(),
+			GasTable:     gasTable,
+			Gas:          budget,
+			WasmExecStep: config.DEFAULT_WASM_MAX_STEPCOUNT,
+			PreExec:      true,
+		}
+		defer func() { lr.SBSteps, lr.SBGas, lr.SBBudget = sc.ExecStep, budget-sc.Gas, budget }()
+		engine, err := sc.NewExecuteEngine(invoke.Code, tx.TxType)
+		if err != nil {
+			res.Err = errStr(err)
+			return
+		}
+		if _, err := engine.Invoke(); err != nil {
+			res.Err = errStr(err)
+			return
+		}
+		res.State = 1
+	})
+}
+
+func (w *world) doXloop(c *wcase, rep *wreply) {
+	tx, err := w.neoTx(c.Code, c.GasPrice, c.GasLimit, c.Signers, 7)
+	if err != nil {
+		rep.Block.Err = "tx-unbuildable: " + errStr(err)
+		return
+	}
+	lr := &loopRes{}
+	rep.Loop = lr
+	// a transaction: every service call costs at least 2 gas (SYSCALL opcode + service price)
+	probeCalls(int(c.GasLimit), "ExecuteBlock, gas limit "+fmt.Sprint(c.GasLimit))
+	w.execBlock([]*types.Transaction{tx}, &rep.Block, nil)
+	lr.BlockCalls = probe.calls
+	probe.on = false
+	if rep.Block.Abort != "" {
+		return
+	}
+	limit := neosvc.VM_STEP_LIMIT + xloopStepSlack
+	if c.Observe {
+		probeCalls(limit, fmt.Sprintf("PreExecuteContract, VM_STEP_LIMIT %d", neosvc.VM_STEP_LIMIT))
+		w.preExec(tx, &rep.Pre)
+		lr.PreCalls, lr.PreSteps = probe.calls, probe.steps
+		probe.on = false
+		return
+	}
+	probeCalls(limit, fmt.Sprintf("pre-execution with a %d gas budget, VM_STEP_LIMIT %d", uint64(xloopGasBudget), neosvc.VM_STEP_LIMIT))
+	w.sandboxPre(tx, xloopGasBudget, &rep.PreSB, lr)
+	lr.SBCalls = probe.calls
+	probe.on = false
 }
 
 // ---------------------------------------------------------------------------------------------
